@@ -170,6 +170,13 @@ def judge_lp(ex, ref, probe_cap=0, probe_rng=None, counters=None):
     facts['status'] = None
     facts['observable'] = False
     cnt('executions')
+    if any(ev.get('backend_fault') for ev in ex['events']):
+        # the MILP back end returned, with status Optimal, a point that violates the very
+        # problem it was given: outside every property's quantifier ("solutions a MILP solver
+        # is entitled to return"); the execution is excluded and counted
+        cnt('excluded_backend_returned_infeasible_point')
+        facts['backend_fault'] = True
+        return fs, facts
 
     # ---- client boundary: exceptions (C02 owns "never errors")
     if ex['sysexit'] is not None:
@@ -361,10 +368,23 @@ def _probe(ex, ref, fs, facts, cap, rng, cnt):
     cnt('probe_points', len(res))
     facts['probe_points'] = len(res)
     crits = sp.ordered_crits(opts)
+
+    def confirmed(m, ok):
+        # second opinion before an alarm: the same point with CBC's integer preprocessing off
+        import pulp
+        again = pin_probe(ex['prob'], pv, [m], solver=pulp.PULP_CBC_CMD(msg=False, options=['preprocess off']))
+        if again.get(m) is ok:
+            return True
+        cnt('probe_backend_disagreement_no_alarm')
+        return False
+
     for m, ok in res.items():
         if ok is None:
             cnt('probe_undecided')
             continue
+        if (ok and m not in expect) or (not ok and m in expect):
+            if not confirmed(m, ok):
+                continue
         if ok and m not in expect:
             why = rm.validity(inst, m, opts['pc'])
             if why is not None:
